@@ -26,11 +26,14 @@ Qed.
 Lemma plain_frag2 : forall p, plain ct p = true -> frag2 ct (TInst p []) = true.
 Proof.
   intros p H. unfold plain in H. apply andb_prop in H. destruct H as [H H3]. apply andb_prop in H. destruct H as [H1 H2].
-  simpl. unfold gcls_ok. rewrite H2, H3. simpl. apply Nat.eqb_eq in H1. rewrite H1. reflexivity.
+  simpl. unfold cls_ok2. rewrite H2, H3. simpl. apply Nat.eqb_eq in H1. rewrite H1. reflexivity.
 Qed.
 
+Lemma cls_ok2_proto : forall c, cls_ok2 ct c = true -> c_protocol (cls_of ct c) = false.
+Proof. intros c H. unfold cls_ok2 in H. apply andb_prop in H. destruct H as [H _]. apply negb_true_iff; auto. Qed.
+
 Lemma frag2_inst : forall c xs, frag2 ct (TInst c xs) = true ->
-  gcls_ok ct c = true /\ length xs = arity ct c /\ forall x, In x xs -> frag2 ct x = true.
+  cls_ok2 ct c = true /\ length xs = arity ct c /\ forall x, In x xs -> frag2 ct x = true.
 Proof.
   intros c xs H. simpl in H. apply andb_prop in H. destruct H as [H H3]. apply andb_prop in H. destruct H as [H1 H2].
   apply Nat.eqb_eq in H2. rewrite forallb_forall in H3. auto.
@@ -100,6 +103,23 @@ Proof.
     apply andb_prop in A. destruct A as [A _]. apply negb_true_iff in A. exact A. }
   clear F. induction ts as [|a l IH]; auto. unfold flatten in *. simpl. rewrite IH; [|intros; apply H; right; auto].
   assert (Ua := H a (or_introl eq_refl)). destruct a; simpl in *; auto; discriminate.
+Qed.
+
+Lemma contract_go_in : forall all items done x, In x (contract_go ct all items done) ->
+  In x items \/ exists c', x = TInst c' [] /\ contractible ct c' = true /\ complete ct all c' = true /\ exists v, In (TLit c' v) items.
+Proof.
+  induction items as [|a r IH]; intros done x H; simpl in H; [contradiction|].
+  assert (G : forall done', In x (contract_go ct all r done') ->
+            In x (a :: r) \/ exists c', x = TInst c' [] /\ contractible ct c' = true /\ complete ct all c' = true /\ exists v, In (TLit c' v) (a :: r)).
+  { intros done' Hx. destruct (IH done' x Hx) as [Hi|[c' [E [C1 [C2 [v Hv]]]]]]; [left; right; auto|].
+    right. exists c'. repeat split; auto. exists v. right; auto. }
+  destruct a; try (destruct H as [<-|H]; [left; left; auto|eapply G; eauto]; fail).
+  destruct (contractible ct c && complete ct all c) eqn:E.
+  - apply andb_prop in E. destruct E as [E1 E2]. destruct (mem_cid c done).
+    + eapply G; eauto.
+    + destruct H as [<-|H]; [|eapply G; eauto].
+      right. exists c. repeat split; auto. exists v. left; auto.
+  - destruct H as [<-|H]; [left; left; auto|eapply G; eauto].
 Qed.
 
 Lemma leh_inst_bad : forall np h c xs r, leh ct np h (TInst c xs) r ->
@@ -273,8 +293,12 @@ Proof.
     + cbn beta iota in H. simpl is_union in H. cbn iota in H.
       destruct (anyM _ rs) as [[|]|] eqn:EA; try discriminate.
       * apply Hex; auto. apply anyM_true_inv in EA. exact EA.
-      * destruct (frag2_inst _ _ Fl) as [G _]. unfold gcls_ok in G. apply andb_prop in G. destruct G as [G _].
-        apply negb_true_iff in G. rewrite G in H. discriminate.
+      * destruct (contractible ct c) eqn:Cc; [|discriminate].
+        rewrite (flatten_atoms2 rs Fr) in H. apply anyM_true_inv in H. destruct H as [x [Hx Hs]].
+        unfold contract in Hx. destruct (contract_go_in rs rs [] x Hx) as [Hin|[c' [-> [C1 [C2 [v Hv]]]]]].
+        -- apply Hex; auto. exists x; auto.
+        -- destruct (Hitems _ _ Fr Hv) as [_ Fv].
+           apply (LE_contract ct _ c xs rs c' v); auto. apply IHk; auto. eapply lit_inst_frag; eauto.
     + cbn beta iota in H. simpl is_union in H. cbn iota in H.
       destruct (anyM _ rs) as [[|]|] eqn:EA; try discriminate. apply Hex; auto. apply anyM_true_inv in EA. exact EA.
     + (* Union / Union *)
